@@ -75,6 +75,18 @@ def budget_value(F, fn, roles):
         return None, "statement form not summarised (%s)" % e
 
 
+def _words(pk):
+    out = []
+    if isinstance(pk, tuple):
+        if pk[:1] == ("lit",) and len(pk) == 2 and isinstance(pk[1], str):
+            out.append(pk[1])
+        for x in pk[1:] if pk[:1] in (("or",), ("tup",)) else ():
+            out += _words(x)
+        for x in (getattr(pk, "sub", None) or {}).values():
+            out += _words(x)
+    return out
+
+
 def untimed_budget(F):
     """the time budget `go` computes when neither a clock nor a move time was given (e.g. `go depth N`), folded for both sides to
     move: [(side, normal form)], or (None, reason)"""
@@ -363,6 +375,34 @@ def a2_to_a6(ctx, F, fn, body, sym):
                     return hir.fold(reach, a_)
                 armed_ok = under(some_d, False) == ("lit", True) and hir.all_leaves_false(under(some_d, True)) and \
                     hir.all_leaves_false(under(none_d, False))
+    # ... and `infinite` means that the word was given: a boolean the spawn is switched off by starts as false and is set only where
+    # the token "infinite" is recognised (a flag that is on by default leaves every timed `go` without its timer)
+    offs = set()
+    for n, anc in hir.walk(body):
+        if n.get("k") == "Closure" and "timer" in roles and n.get("def") == roles["timer"]["path"]:
+            for x in hir.guards_of(n, body, sym) or []:
+                if x[0] == "if" and x[2] is False and isinstance(x[1], tuple) and x[1][:1] == ("var",):
+                    offs.add(x[1][1])
+    for nm in sorted(offs):
+        inits = [n for n, _ in hir.walk(body) if n.get("k") == "SLet" and n["pat"].get("k") == "PBind" and n["pat"].get("name") == nm and n.get("init") is not None]
+        sets = [(n, anc) for n, anc in hir.walk(body) if n.get("k") == "Assign" and hir.strip(n["l"]).get("k") == "Path" and hir.strip(n["l"])["to"].get("name") == nm]
+        ok_i = len(inits) == 1 and sym(inits[0]["init"]) == ("lit", False)
+        ok_s = True
+        for n, anc in sets:
+            if sym(n["r"]) == ("lit", False):
+                continue
+            arm_ok = False
+            for a_ in anc:
+                if a_.get("k") == "Match":
+                    for arm in a_["arms"]:
+                        if any(x is n for x, _ in hir.walk(arm["body"])) and "infinite" in [w_ for w_ in _words(hir.pat_key(arm["pat"]))]:
+                            arm_ok = True
+                if a_.get("k") == "If" and any(t_ == ("lit", "infinite") for t_ in hir.subterms(sym(a_["cond"]))) and any(x is n for x, _ in hir.walk(a_["then"])):
+                    arm_ok = True
+            ok_s = ok_s and arm_ok
+        ctx.check("C13.A5", "untimed-only-on-request:%s" % nm, ok_i and ok_s, fn=GO, file=fn["file"], line=hir.line(inits[0]) if inits else None,
+                  what="the flag that switches the timer off must start as false and be set only where the word `infinite` is read",
+                  expected="let mut %s = false; \"infinite\" => %s = true" % (nm, nm), found={"initial": hir.fmt(sym(inits[0]["init"]), 40) if inits else None, "assignments": len(sets)})
     ctx.check("C13.A5", "timer-armed-iff-budget-and-not-infinite", armed_ok,
               fn=GO, file=fn["file"], what="the timer must be armed exactly when a budget exists and `infinite` was not given", found=spawn_g)
     # A6: the budget is *enforced*: the flag the timer clears is observed at every interior node and an abort unwinds at once
